@@ -40,7 +40,7 @@ pub fn meta() -> CheckMeta {
     CheckMeta {
         id: "C05",
         level: "exploration",
-        rule: "cases: 6 adaptive solvers x G-ivp (incl. at-rest and relaxing members, dim 1-4) x tol 1e-9..1e-3 x dt_min <= 1e-6 dt_max, plus a BDF-tight stratum (dim >= 2, tol 1e-10..1e-9). Monitors: no Err item, path ends at t_end, points <= G_s (T L tol^(-1/p) + T/dt_max) + order + 2, derivative calls <= kappa_s (points + 10), hard budget 20x the implied total. A solve is non-trivial when it has >= 20 points and its step varied by >= 2x (growth or rejection seen); distinct = hash of (solver, problem, configuration)".into(),
+        rule: "cases: 6 adaptive solvers x G-ivp (incl. at-rest and relaxing members, dim 1-4) x tol 1e-9..1e-3 x dt_min <= 1e-6 dt_max, plus a BDF-tight stratum (dim >= 2, tol 1e-10..1e-9). Monitors: no Err item, path ends at t_end, points <= G_s (T L tol^(-1/p) + T/dt_max) + order + 2, derivative calls <= kappa_s (points + 10), hard budget 20x the implied total; work-scaling stage: points(tol/1000)/points(tol) <= 4 x 1000^(1/p) on estimator-limited pairs. A solve is non-trivial when it has >= 20 points and its step varied by >= 2x (growth or rejection seen); distinct = hash of (solver, problem, configuration)".into(),
         assumptions: vec![
             "L is the generator's Lipschitz/time-scale bound of the problem; the work bound is split into a point-count factor G_s and a calls-per-point factor kappa_s (DESIGN.md C05)".into(),
             "budgets are counted in derivative invocations by the user closure itself, never in wall-clock time".into(),
@@ -166,6 +166,70 @@ fn run_case(rep: &mut Report, solver: Solver, prob: &IvpProblem, cfg: &Cfg, mode
     }
 }
 
+/// K_scale: points(tol/1000) / points(tol) <= K_scale * 1000^(1/p) for estimator-limited solves
+/// (observed maxima per solver are written to the evidence)
+const K_SCALE: f64 = 4.0;
+
+/// Work-scaling monitor: "within a fixed factor of T tol^(-1/p)" means the work grows like
+/// tol^(-1/p). The same problem is solved at tol and tol/1000 with a cap so large that the
+/// estimator limits the steps; the ratio of the point counts is compared with 1000^(1/p). An
+/// estimator that has lost orders (e.g. a start-up that is only second-order accurate in t) shows
+/// here long before it exceeds the absolute bound, whose constant must cover the whole family.
+fn scaling_case(rep: &mut Report, solver: Solver, prob: &IvpProblem, t0: f64, span: f64, tol1: f64) {
+    let sname = solver.name();
+    let mut counts = vec![];
+    let mut est_limited = true;
+    for tol in [tol1, tol1 * 1e-3] {
+        let dt_max = span / 6.0;
+        let cfg = Cfg { t0, t1: t0 + span, dt_min: dt_max * 1e-9, dt_max, tol };
+        let opts = Opts { budget: 30_000_000, max_items: 3_000_000, mode: DimMode::Dynamic, ..Default::default() };
+        let out = solve_real(solver, &cfg, &prob.y0, prob, &opts);
+        rep.eval();
+        if !out.clean() {
+            // errors / budgets on these problems are judged by the other stages' oracle
+            let case = || J::obj().set("solver", sname).set("stratum", "scaling").set("cfg", cfg.to_json()).set("problem", prob.to_json());
+            if out.budget_hit || out.truncated {
+                rep.violation(&format!("{}/work-budget-exhausted", sname), case(), format!("scaling run: {} calls / {} points without finishing", out.calls, out.ok_points().len()));
+            } else if let Some(e) = out.first_err() {
+                rep.violation(&format!("{}/error-on-smooth-problem/scaling", sname), case(), format!("scaling run reported {}", e.short()));
+            } else if let Some((m, l)) = &out.panic {
+                rep.violation(&format!("{}/panic", sname), case(), format!("{} at {}", m, l));
+            }
+            return;
+        }
+        let pts = out.ok_points();
+        let mut hs: Vec<f64> = vec![];
+        let mut p = t0;
+        for (t, _) in &pts {
+            hs.push(*t - p);
+            p = *t;
+        }
+        hs.sort_by(|a, b| a.partial_cmp(b).unwrap());
+        if hs.is_empty() || hs[hs.len() / 2] > 0.5 * dt_max {
+            est_limited = false;
+        }
+        counts.push(pts.len() as f64);
+    }
+    if !est_limited || counts[0] < 30.0 {
+        rep.count(&format!("{}/scaling_pairs_not_estimator_limited", sname), 1);
+        return;
+    }
+    let expected = 1e3f64.powf(1.0 / solver.est_order());
+    let r = counts[1] / counts[0] / expected;
+    rep.count(&format!("{}/scaling_pairs", sname), 1);
+    rep.max(&format!("{}/scaling_ratio_over_expected", sname), r);
+    rep.min(&format!("{}/scaling_ratio_over_expected", sname), r);
+    if !(r <= K_SCALE) {
+        rep.violation(
+            &format!("{}/work-does-not-scale-with-the-estimator-order", sname),
+            J::obj().set("solver", sname).set("problem", prob.to_json()).set("t0", t0).set("span", span).set("tol", tol1),
+            format!("{} points at tol={:e}, {} points at tol/1000: ratio {:.1}, order-appropriate 1000^(1/{}) = {:.1} (allowed factor {})", counts[0], tol1, counts[1], counts[1] / counts[0], solver.est_order(), expected, K_SCALE),
+        );
+    } else {
+        rep.nontrivial(CaseHash::new("c05-scaling").u(solver.idx() as u64).fs(&prob.a).fs(&prob.y0).f(t0).f(span).f(tol1).0);
+    }
+}
+
 pub fn stages(ctx: &Ctx) -> Vec<Stage> {
     let seed = ctx.seed;
     let mut st = vec![];
@@ -211,6 +275,18 @@ pub fn stages(ctx: &Ctx) -> Vec<Stage> {
         let cfg = Cfg { t0, t1: t0 + dt_max * rng.log10(1.0, 2.0), dt_min: dt_max * 1e-7, dt_max, tol };
         run_case(rep, solver, &prob, &cfg, DimMode::Dynamic, "bdf-tight");
     }));
+    let ns = ctx.tier.pick(600, 12_000);
+    st.push(Stage::new("scaling", ns, move |i, rep| {
+        let mut rng = Rng::for_case(seed, "c05-scaling", i);
+        let solver = Solver::ADAPTIVE[(i % 6) as usize];
+        let n = 1 + rng.below(3);
+        let fl = *rng.pick(&[0usize, 1]); // forced (non-autonomous) members
+        let prob = IvpProblem::gen(&mut rng, n, fl);
+        let t0 = rng.r(-2.0, 2.0);
+        let span = rng.r(4.0, 12.0) * if solver.high_order() { 3.0 } else { 1.0 } / prob.lip;
+        let tol1 = rng.log10(-6.0, -4.5);
+        scaling_case(rep, solver, &prob, t0, span, tol1);
+    }));
     st
 }
 
@@ -218,6 +294,7 @@ pub fn thresholds(ctx: &Ctx, rep: &Report) -> Vec<Threshold> {
     let mut t = vec![];
     for s in Solver::ADAPTIVE {
         t.push(Threshold { what: format!("{}: solves with step variation >= 2x", s.name()), required: ctx.tier.pick(20.0, 1_000.0), observed: rep.counter(&format!("{}/solves_with_step_variation", s.name())) as f64 });
+        t.push(Threshold { what: format!("{}: estimator-limited tolerance pairs in the work-scaling stage", s.name()), required: ctx.tier.pick(30.0, 600.0), observed: rep.counter(&format!("{}/scaling_pairs", s.name())) as f64 });
     }
     t
 }
